@@ -19,7 +19,10 @@ def world():
         symlinks={"b.x": "hand"},
         # non-initial seed states: a generated file the user edited and redo has already noticed (override flagged)
         prefixes=[[["ifchange", ["all"]], ["uwrite", "a.x", "U1\n"], ["ifchange", ["a.x"]]],
-                  [["ifchange", ["all"]], ["ureplace", "t", "R\n"], ["redo", ["t"]]]])
+                  [["ifchange", ["all"]], ["ureplace", "t", "R\n"], ["redo", ["t"]]],
+                  # a rebuild of t that was killed when its script had finished (output written, nothing recorded):
+                  # what the user does to t after that is still theirs
+                  [["ifchange", ["all"]], ["edit", "src", "1"], ["kbuild", ["t"], "t", "e"]]])
 
 
 def world_csum():
@@ -30,7 +33,9 @@ def world_csum():
         {"top.do": [S(deps=["c"])], "c.do": [S(kind="csum", deps=["src"], out="file")]},
         ["top", "c"], ["top", "c"],
         prefixes=[[["ifchange", ["top"]], ["uwrite", "c", "U1\n"], ["ifchange", ["top"]]],
-                  [["ifchange", ["top"]], ["ureplace", "c", "R\n"], ["ifchange", ["top"]], ["rm", "c"]]])
+                  [["ifchange", ["top"]], ["ureplace", "c", "R\n"], ["ifchange", ["top"]], ["rm", "c"]],
+                  # a rebuild of c killed after its redo-stamp had run
+                  [["ifchange", ["top"]], ["edit", "src", "2"], ["kbuild", ["top"], "c", "e"]]])
 
 
 def alphabet_csum(w, h):
